@@ -228,3 +228,41 @@ Check C08_def_wf_op :
                         | _ => True
                         end.
 Print Assumptions C08_def_wf_op.
+
+(** ** "behaves identically under any subsequent sequence of calls" *)
+
+From Sodg Require Import NextIrrelevant.
+
+Theorem C08_same_future :
+  forall n os g k, no_next os ->
+  run n (renext k g) os = omap (fun r : sodg * list res => (renext k (fst r), snd r)) (run n g os).
+Proof. exact run_next. Qed.
+
+Check C08_same_future :
+  forall n os g k, no_next os ->
+  run n (renext k g) os = omap (fun r : sodg * list res => (renext k (fst r), snd r)) (run n g os).
+Print Assumptions C08_same_future.
+
+Theorem C08_def_renext : forall k g, renext k g = mkG (g_stores g) (g_branches g) (g_vertices g) k.
+Proof. intros k g. reflexivity. Qed.
+
+Check C08_def_renext : forall k g, renext k g = mkG (g_stores g) (g_branches g) (g_vertices g) k.
+Print Assumptions C08_def_renext.
+
+Theorem C08_def_no_next : forall os, no_next os <-> Forall (fun o => o <> ONext) os.
+Proof. intros os. reflexivity. Qed.
+
+Check C08_def_no_next : forall os, no_next os <-> Forall (fun o => o <> ONext) os.
+Print Assumptions C08_def_no_next.
+
+Theorem C08_next_id_restarts_from_lowest_absent :
+  forall g, g_next g = 0 -> (exists id, id < cap_of g /\ tag g id = 0) ->
+  exists id, op_next_id g = Ok (set_next g (S id), id) /\ id < cap_of g /\ tag g id = 0
+             /\ forall w, w < id -> tag g w <> 0.
+Proof. exact next_id_from_zero. Qed.
+
+Check C08_next_id_restarts_from_lowest_absent :
+  forall g, g_next g = 0 -> (exists id, id < cap_of g /\ tag g id = 0) ->
+  exists id, op_next_id g = Ok (set_next g (S id), id) /\ id < cap_of g /\ tag g id = 0
+             /\ forall w, w < id -> tag g w <> 0.
+Print Assumptions C08_next_id_restarts_from_lowest_absent.
